@@ -235,6 +235,9 @@ func TestC15Pool(t *testing.T) {
 					mu.Unlock()
 					return
 				}
+				// the fields are this goroutine's own slice (other goroutines
+				// split the same string at this moment): overwrite it
+				scribble(fs)
 			}
 		}(g)
 	}
